@@ -63,7 +63,7 @@ def catalogue(tier):
                               "transform_strip": strip, "required": req})
     cat.append(("Str", [_clean(o) for o in sopts], STR_VALUES + WRONG))
     # ---- numbers
-    nb = [None, -1, 0, 5, 10]
+    nb = [None, -1, 0, 5, 10] if not thorough else [None, -1, 0, 0.5, 5, 10, 2 ** 70]
     ints = [-2, -1, 0, 1, 4, 5, 6, 10, 11, 2 ** 70, F(1.5), F(-0.5), F(5.0), F(10.9), F(-1.0), F("inf"), F("-inf"),
             F("nan"), F(1e300), "5", "-1", " 7 ", "1.5", "abc", "", "0x10", "1e3", "\u0661", "5\n", "+5", "1_0", "10", "11",
             "-2", "nan", "inf", True, False]
@@ -83,8 +83,8 @@ def catalogue(tier):
     ipv = ["1.2.3.4", "0.0.0.0", "255.255.255.255", "256.1.1.1", "1.2.3", "1.2.3.4.5", "01.2.3.4", "1.2.3.4 ", " 1.2.3.4",
            "a.b.c.d", "", "1.2.3.-4", "1..2.3", "1.2.3.4/32", "\u0661.2.3.4", "0x1.2.3.4", "1.2.3.04", "127.1", "1.2.3.4.",
            ".1.2.3.4", "1.2.3.256", "1.2.3.1000", "1.2.3.+4", "10.0.0.1", "x10.0.0.1x", "999.0.0.1"]
-    ipopts = [_clean(o) for o in _prod(transform_strip=[None, True, "x"], required=[None, True], min_len=[None, 8],
-                                       max_len=[None, 8])]
+    ipopts = [_clean(o) for o in _prod(transform_strip=[None, True, "x"], required=[None, True], min_len=[None, 8] if not thorough else [None, 7, 8, 15],
+                                       max_len=[None, 8] if not thorough else [None, 7, 8, 15], transform_case=[None] if not thorough else [None, "upper"])]
     cat.append(("IPv4", ipopts, ipv + WRONG))
     pf = [None, 0, 8, 24, 32]
     netv = ["10.0.0.0/8", "10.0.0.0/24", "10.0.0.1/24", "0.0.0.0/0", "1.2.3.4/32", "1.2.3.4", "10.0.0.0/33", "10.0.0.0/",
